@@ -84,12 +84,12 @@ impl Rect {
 
   /// Returns the width of the rectangle.
   pub fn width(&self) -> usize {
-    self.right - self.left
+    self.right.saturating_sub(self.left)
   }
 
   /// Returns the height of the rectangle.
   pub fn height(&self) -> usize {
-    self.bottom - self.top
+    self.bottom.saturating_sub(self.top)
   }
 }
 
